@@ -149,6 +149,7 @@ class Connector(object):
         self.timeout = timeout
         self.bindAddress = bind
         self.state = 'connecting'     # connecting | connected | disconnected
+        self.started_at = world.now
         self.aborted = False
         self.transport = _PendingSocket(world, cid)     # Twisted: the Client object exists as soon as connectTCP returns
         self.timeout_call = None
